@@ -24,7 +24,8 @@ func Harness_stats_counts() {
 	K := verifChoose("recipes", 3)
 	dbSrc := ""
 	for i := 0; i < K; i++ {
-		dbSrc += "r" + string(rune('0'+i)) + ":\n  x: 1\n"
+		// headings may repeat a name: every heading counts as a record
+		dbSrc += "r" + string(rune('0'+verifChoose("recipe-name", 2))) + ":\n  x: 1\n"
 	}
 	if layout == "2006/01/02" {
 		verifLabel("date-format", "default")
